@@ -55,7 +55,9 @@ StrShapes == {"s:47,47", "s:47,105", "s:47,47,105", "s:47,40,47", "s:47,91,47", 
 \* integers at and next to the powers of two where a representation changes
 IntEdgeShapes == {"i:2147483647", "i:2147483648", "i:-2147483648", "i:-2147483649", "i:4294967295", "i:4294967296", "i:9007199254740992", "i:9007199254740993",
                   "i:-9007199254740993", "i:4611686018427387903", "i:4611686018427387904", "i:-4611686018427387904", "i:-4611686018427387905",
-                  "i:9223372036854775806", "i:-9223372036854775807", "i:1000000", "i:-1000000", "i:256", "i:65536"}
+                  "i:9223372036854775806", "i:-9223372036854775807", "i:1000000", "i:-1000000", "i:256", "i:65536",
+                  \* the ends of small tables of ready-made texts
+                  "i:99", "i:100", "i:101", "i:-99", "i:-100", "i:-101", "i:999", "i:1000", "i:-999", "i:-1000", "i:-10", "i:10"}
 Shapes == {"nil", "true", "int0", "int5", "intneg", "float", "strempty", "str", "strnum", "listempty", "listmixed", "strs", "ints", "arr3",
            "mapany", "mss", "mis", "msl", "mapempty", "struct", "ptrstruct", "nilptrstruct", "embedded", "methods", "ptrptr", "nilslice",
            "nilmap", "func", "chan", "time", "bytes", "err", "iface", "uint8", "int64", "float32", "nested", "mixedrecv",
